@@ -81,7 +81,7 @@ def run(prop: str, tier: str) -> int:
     try:
         # (1) design level: exhaustive to a depth bound
         cfg = "Controller.cfg" if tier == "quick" else "Controller_thorough.cfg"
-        r = C.run_tlc("Controller", cfg=cfg, coverage=True, timeout=3000, check_rc=False, heap="12g")
+        r = C.run_tlc("Controller", cfg=cfg, coverage=True, timeout=3000, check_rc=False, heap="6g")
         if r.rc != 0 and not r.violated:
             raise C.MachineryError(f"TLC failed on Controller:\n{r.out[-1500:]}")
         for inv in r.violated:
@@ -92,7 +92,7 @@ def run(prop: str, tier: str) -> int:
         # (1b) Controller refines the abstract qubit pool (TLC), whose invariant is inductive (Apalache, thorough tier)
         pool_cfg = f"{tmp}/ControllerPool.cfg"
         open(pool_cfg, "w").write(open(C.SPEC / "ControllerPool.cfg").read().replace("MaxDepth = 12", "MaxDepth = %d" % (9 if tier == "quick" else 12)))
-        rp = C.run_tlc("ControllerPool", cfg=pool_cfg, timeout=3000, check_rc=False, heap="8g")
+        rp = C.run_tlc("ControllerPool", cfg=pool_cfg, timeout=3000, check_rc=False, heap="4g")
         if rp.rc != 0 and not rp.violated:
             raise C.MachineryError(f"TLC failed on ControllerPool:\n{rp.out[-1500:]}")
         for inv in rp.violated:
